@@ -225,3 +225,241 @@ type tEmbFlat struct {
 	Sum     float32        `parquet:"sum"`
 	Note    string         `parquet:"note,optional"`
 }
+
+// ---- maps ----
+//
+// A Go map is a MAP group (repeated key_value of key and value).  The typed
+// writer copies the entries of a map into scratch arrays of keys and values
+// before it hands them to the column buffers: one generic copy per key kind of
+// cmp.Ordered (ints, uints, floats, strings) and a reflection based copy for
+// every other key kind (bool, byte arrays); the strides of the scratch arrays
+// are the Go sizes of key and value, so every (key size, value size) pair is a
+// shape of its own.  The reflection paths walk the map with MapRange.  Every
+// key kind meets values that are smaller than, as large as and larger than
+// the key; maps hold 0..ListLen entries (more than the scratch capacity of
+// the previous row).
+//
+// As for the embedded structs, the shapes come twice: over values that hold
+// no pointers (an entry read with the wrong stride is a wrong number) and
+// over strings, slices, pointers, groups and maps (a forged pointer ends the
+// process): "maps" is not run once "maps-scalars" has failed.
+
+type tMapNumGroup struct {
+	P int32   `parquet:"p"`
+	Q uint8   `parquet:"q"`
+	R float64 `parquet:"r,optional"`
+	S [3]byte `parquet:"s"`
+}
+
+type tMapScalars struct {
+	ID int64 `parquet:"id"`
+	// key kinds with a generic scratch copy
+	I8I64  map[int8]int64         `parquet:"i8i64"`
+	I16U8  map[int16]uint8        `parquet:"i16u8"`
+	I32F64 map[int32]float64      `parquet:"i32f64"`
+	I32I32 map[int32]int32        `parquet:"i32i32" parquet-value:",delta"`
+	I64I32 map[int64]int32        `parquet:"i64i32" parquet-key:",delta"`
+	II16   map[int]int16          `parquet:"ii16"`
+	U8U64  map[uint8]uint64       `parquet:"u8u64"`
+	U16F32 map[uint16]float32     `parquet:"u16f32"`
+	U32I64 map[uint32]int64       `parquet:"u32i64" parquet-value:",dict"`
+	U64Bo  map[uint64]bool        `parquet:"u64bo"`
+	UA5    map[uint][5]byte       `parquet:"ua5"`
+	F32I64 map[float32]int64      `parquet:"f32i64"`
+	F64I8  map[float64]int8       `parquet:"f64i8"`
+	I32G   map[int32]tMapNumGroup `parquet:"i32g"`
+	// key kinds copied by reflection
+	BoI8   map[bool]int8            `parquet:"boi8"`
+	BoI32  map[bool]int32           `parquet:"boi32"`
+	BoI64  map[bool]int64           `parquet:"boi64" parquet-value:",dict"`
+	BoA16  map[bool][16]byte        `parquet:"boa16"`
+	A1I64  map[[1]byte]int64        `parquet:"a1i64"`
+	A1Bo   map[[1]byte]bool         `parquet:"a1bo"`
+	A4I16  map[[4]byte]int16        `parquet:"a4i16"`
+	A4I32  map[[4]byte]int32        `parquet:"a4i32"`
+	A4I64  map[[4]byte]int64        `parquet:"a4i64"`
+	A5F64  map[[5]byte]float64      `parquet:"a5f64"`
+	A8I64  map[[8]byte]int64        `parquet:"a8i64" parquet-key:",dict"`
+	A16I32 map[[16]byte]int32       `parquet:"a16i32" parquet-key:",uuid"`
+	A16A16 map[[16]byte][16]byte    `parquet:"a16a16"`
+	A16A5  map[[16]byte][5]byte     `parquet:"a16a5"`
+	A20U8  map[[20]byte]uint8       `parquet:"a20u8"`
+	A20F32 map[[20]byte]float32     `parquet:"a20f32"`
+	A4G    map[[4]byte]tMapNumGroup `parquet:"a4g"`
+	OA4    map[[4]byte]int64        `parquet:"oa4,optional"`
+	Z      int16                    `parquet:"z"`
+}
+
+type tMapGroup struct {
+	P int32   `parquet:"p"`
+	Q string  `parquet:"q,dict"`
+	R []int64 `parquet:"r"`
+	S *int16  `parquet:"s,optional"`
+}
+
+type tMaps struct {
+	ID   int64                       `parquet:"id"`
+	SS   map[string]string           `parquet:"ss"`
+	SI   map[string]int64            `parquet:"si" parquet-key:",dict" parquet-value:",dict"`
+	SI8  map[string]int8             `parquet:"si8"`
+	SP   map[string]*int32           `parquet:"sp"`
+	SB   map[string][]byte           `parquet:"sb"`
+	SL   map[string][]int32          `parquet:"sl"`
+	SG   map[string]tMapGroup        `parquet:"sg"`
+	SPG  map[string]*tMapGroup       `parquet:"spg"`
+	SA   map[string][16]byte         `parquet:"sa" parquet-value:",uuid"`
+	I32S map[int32]string            `parquet:"i32s"`
+	I8B  map[int8][]byte             `parquet:"i8b"`
+	U64S map[uint64]string           `parquet:"u64s" parquet-value:",dict"`
+	F64S map[float64]string          `parquet:"f64s"`
+	BoS  map[bool]string             `parquet:"bos"`
+	BoL  map[bool][]int64            `parquet:"bol"`
+	A4S  map[[4]byte]string          `parquet:"a4s"`
+	A16P map[[16]byte]*int64         `parquet:"a16p"`
+	A16L map[[16]byte][]int16        `parquet:"a16l"`
+	A8B  map[[8]byte][]byte          `parquet:"a8b"`
+	A5G  map[[5]byte]tMapGroup       `parquet:"a5g"`
+	MM   map[string]map[int32]int64  `parquet:"mm"`
+	AM   map[[4]byte]map[bool]string `parquet:"am"`
+	OM   map[string]int32            `parquet:"om,optional"`
+	G    tMapHolder                  `parquet:"g"`
+	PG   *tMapHolder                 `parquet:"pg,optional"`
+	LG   []tMapHolder                `parquet:"lg"`
+	Z    int16                       `parquet:"z"`
+}
+
+type tMapHolder struct {
+	K int32             `parquet:"k"`
+	M map[[4]byte]int64 `parquet:"m"`
+	N map[string]string `parquet:"n"`
+}
+
+// ---- Go values narrower than their column ----
+//
+// A writer given a schema that is not the one of its row type (and every
+// writer of `any` rows) maps each Go value to its column by the KIND of the
+// value: the reflection value writer calls writeInt32 for int8/int16/int32,
+// writeInt64 for int/int64/uint/uint64, writeFloat for float32, ... on
+// whatever column buffer the schema put there (column_buffer_reflect.go
+// writeValueFuncOfLeaf), and every column buffer - plain and dictionary
+// indexed, of every physical type - has its own conversion for each of these
+// calls.  The family writes rows of tNarrowW with the schema of tNarrowR
+// (same names and tags, wider Go types) and reads them as tNarrowR: only
+// conversions that keep the value (sign or zero extension, float32 ->
+// float64) are among them, on plain, dictionary and delta encoded columns
+// that are required, optional and repeated.  (The tags of tNarrowW must be
+// valid for its own Go types - every writer derives the schema of its row type
+// first - so the logical types that need a wide integer are on tNarrowR only.)
+
+type tNarrowElemW struct {
+	A int16  `parquet:"a,dict"`
+	B *uint8 `parquet:"b,optional"`
+}
+
+type tNarrowElemR struct {
+	A int64   `parquet:"a,dict"`
+	B *uint32 `parquet:"b,optional"`
+}
+
+type tNarrowW struct {
+	ID int64 `parquet:"id"`
+	// -> INT64
+	P8   int8    `parquet:"p8"`
+	P16  int16   `parquet:"p16"`
+	P32  int32   `parquet:"p32"`
+	D8   int8    `parquet:"d8,dict"`
+	D16  int16   `parquet:"d16,dict"`
+	D32  int32   `parquet:"d32,dict"`
+	E8   int8    `parquet:"e8,delta"`
+	E16  int16   `parquet:"e16,delta"`
+	E32  int32   `parquet:"e32,delta"`
+	OP16 *int16  `parquet:"op16,optional"`
+	OD8  *int8   `parquet:"od8,optional,dict"`
+	OD32 *int32  `parquet:"od32,optional,dict"`
+	VD16 int16   `parquet:"vd16,optional,dict"`
+	LP32 []int32 `parquet:"lp32"`
+	LD16 []int16 `parquet:"ld16,dict"`
+	LL8  []int8  `parquet:"ll8,list,dict"`
+	TS32 int32   `parquet:"ts32"`
+	DC16 int16   `parquet:"dc16,dict"`
+	// -> INT64 of an unsigned logical type
+	UP8  uint8    `parquet:"up8"`
+	UP16 uint16   `parquet:"up16"`
+	UP32 uint32   `parquet:"up32"`
+	UD8  uint8    `parquet:"ud8,dict"`
+	UD16 uint16   `parquet:"ud16,dict"`
+	UD32 uint32   `parquet:"ud32,dict"`
+	OUD  *uint32  `parquet:"oud,optional,dict"`
+	LUD  []uint16 `parquet:"lud,dict"`
+	// -> INT32
+	Q8  int8    `parquet:"q8"`
+	Q16 int16   `parquet:"q16"`
+	R8  int8    `parquet:"r8,dict"`
+	R16 int16   `parquet:"r16,dict"`
+	S16 int16   `parquet:"s16,delta"`
+	OR8 *int8   `parquet:"or8,optional,dict"`
+	LR8 []int8  `parquet:"lr8,dict"`
+	DT8 int8    `parquet:"dt8"`
+	UQ8 uint8   `parquet:"uq8"`
+	UR8 uint8   `parquet:"ur8,dict"`
+	UR6 uint16  `parquet:"ur6,dict"`
+	LU6 []uint8 `parquet:"lu6,list,dict"`
+	// -> DOUBLE
+	F   float32   `parquet:"f"`
+	FD  float32   `parquet:"fd,dict"`
+	OFD *float32  `parquet:"ofd,optional,dict"`
+	LFD []float32 `parquet:"lfd,dict"`
+	// in groups
+	G  tNarrowElemW   `parquet:"g"`
+	LG []tNarrowElemW `parquet:"lg"`
+	Z  int16          `parquet:"z"`
+}
+
+type tNarrowR struct {
+	ID   int64          `parquet:"id"`
+	P8   int64          `parquet:"p8"`
+	P16  int64          `parquet:"p16"`
+	P32  int64          `parquet:"p32"`
+	D8   int64          `parquet:"d8,dict"`
+	D16  int64          `parquet:"d16,dict"`
+	D32  int64          `parquet:"d32,dict"`
+	E8   int64          `parquet:"e8,delta"`
+	E16  int64          `parquet:"e16,delta"`
+	E32  int            `parquet:"e32,delta"`
+	OP16 *int64         `parquet:"op16,optional"`
+	OD8  *int64         `parquet:"od8,optional,dict"`
+	OD32 *int64         `parquet:"od32,optional,dict"`
+	VD16 int64          `parquet:"vd16,optional,dict"`
+	LP32 []int64        `parquet:"lp32"`
+	LD16 []int64        `parquet:"ld16,dict"`
+	LL8  []int64        `parquet:"ll8,list,dict"`
+	TS32 int64          `parquet:"ts32,timestamp(millisecond)"`
+	DC16 int64          `parquet:"dc16,decimal(2:12),dict"`
+	UP8  uint64         `parquet:"up8"`
+	UP16 uint64         `parquet:"up16"`
+	UP32 uint64         `parquet:"up32"`
+	UD8  uint64         `parquet:"ud8,dict"`
+	UD16 uint64         `parquet:"ud16,dict"`
+	UD32 uint           `parquet:"ud32,dict"`
+	OUD  *uint64        `parquet:"oud,optional,dict"`
+	LUD  []uint64       `parquet:"lud,dict"`
+	Q8   int32          `parquet:"q8"`
+	Q16  int32          `parquet:"q16"`
+	R8   int32          `parquet:"r8,dict"`
+	R16  int32          `parquet:"r16,dict"`
+	S16  int32          `parquet:"s16,delta"`
+	OR8  *int32         `parquet:"or8,optional,dict"`
+	LR8  []int32        `parquet:"lr8,dict"`
+	DT8  int32          `parquet:"dt8,date"`
+	UQ8  uint32         `parquet:"uq8"`
+	UR8  uint32         `parquet:"ur8,dict"`
+	UR6  uint32         `parquet:"ur6,dict"`
+	LU6  []uint32       `parquet:"lu6,list,dict"`
+	F    float64        `parquet:"f"`
+	FD   float64        `parquet:"fd,dict"`
+	OFD  *float64       `parquet:"ofd,optional,dict"`
+	LFD  []float64      `parquet:"lfd,dict"`
+	G    tNarrowElemR   `parquet:"g"`
+	LG   []tNarrowElemR `parquet:"lg"`
+	Z    int16          `parquet:"z"`
+}
